@@ -379,20 +379,55 @@ theorem enumFacts_nb {cfg : Cfg} (H : CfgOk cfg) (e : RustEnum) (he : EnumOk e) 
 
 /-! ## the file -/
 
-/-- a file in scope: every piece of it is, the version text and the two halves of the package name are
-dotted identifier fragments — and **the package name has a dot** (otherwise `split = none`: the
-opening lines of the package object / package block are not written, but their closing braces are) -/
+theorem span_loop_append (p : Char → Bool) : ∀ (l acc : List Char),
+    (List.span.loop p l acc).1 ++ (List.span.loop p l acc).2 = acc.reverse ++ l
+  | [], acc => by simp [List.span.loop]
+  | a :: t, acc => by
+    simp only [List.span.loop]
+    split
+    · rw [span_loop_append p t (a :: acc)]; simp
+    · simp
+
+theorem span_append (p : Char → Bool) (l : List Char) : (l.span p).1 ++ (l.span p).2 = l := by
+  simpa [List.span] using span_loop_append p l []
+
+/-- the two halves `rsplit_once('.')` returns consist of characters of the string -/
+theorem rsplitOnceDot_mem {s parent last : Str} (h : rsplitOnceDot s = some (parent, last)) :
+    (∀ c ∈ parent, c ∈ s) ∧ (∀ c ∈ last, c ∈ s) := by
+  unfold rsplitOnceDot at h
+  have happ := span_append (· != '.') s.reverse
+  split at h
+  · cases h
+  · rename_i lastRev x parentRev heq
+    cases h
+    rw [heq] at happ
+    have hm : ∀ c, c ∈ lastRev ++ x :: parentRev → c ∈ s := by
+      intro c hc; rw [happ] at hc; exact List.mem_reverse.1 hc
+    exact ⟨fun c hc => hm c (by simp [List.mem_reverse.1 hc]), fun c hc => hm c (by simp [List.mem_reverse.1 hc])⟩
+
+theorem dotted_of_subset {s t : Str} (hs : Dotted s) (h : ∀ c ∈ t, c ∈ s) : Dotted t := fun c hc => hs c (h c hc)
+
+/-- `last_package_segment()` of a dotted name is a dotted fragment (the whole name when it has no dot) -/
+theorem lastPackageSegment_dotted {pkg : Str} (h : Dotted pkg) : Dotted (lastPackageSegment pkg) := by
+  unfold lastPackageSegment
+  split
+  · rename_i parent last hsp; exact dotted_of_subset h (rsplitOnceDot_mem hsp).2
+  · exact h
+
+/-- a file in scope: every piece of it is, the version text, the parent package (when there is one)
+and the innermost package name are dotted identifier fragments.  (Since the `fix:` commit fb91590
+the package name need not contain a dot: `package object <last> {` / `package <last> {` are always
+written, so their closing braces are always matched.) -/
 structure FileOk (f : ScFile) : Prop where
   version : ∀ v, f.header = some v → Dotted v
-  split : ∃ parent last, f.split = some (parent, last) ∧ Dotted parent ∧ Dotted last
+  parent : ∀ p, f.parent = some p → Dotted p
+  last : Dotted f.last
   aliases : ∀ x, f.packageObject = some x → ∀ a ∈ x.2, NB S (renderAlias a)
   body : ∀ x, f.packageBody = some x → (∀ c ∈ x.1, ClassOk c) ∧ ∀ e ∈ x.2, NB S (renderEnum e)
 
 theorem renderFile_nb (f : ScFile) (h : FileOk f) : NB S (renderFile f) := by
-  obtain ⟨parent, last, hsplit, hparent, hlast⟩ := h.split
+  have hlast := h.last
   unfold renderFile
-  rw [hsplit]
-  simp only
   refine NB.append (NB.append (NB.append ?_ ?_) ?_) ?_
   · split
     · rename_i v hv
@@ -401,7 +436,10 @@ theorem renderFile_nb (f : ScFile) (h : FileOk f) : NB S (renderFile f) := by
       have r3 : Run S s%"\n */\n" ⟨.block, stk⟩ ⟨.code, stk⟩ := rfl
       exact (r1.append (dotted_block v (h.version v hv) stk)).append r3
     · exact NB.nil
-  · refine NB.append (NB.append ?_ hparent.nb) ?_ <;> nb_lit
+  · split
+    · rename_i p hp
+      refine NB.append (NB.append ?_ (h.parent p hp).nb) ?_ <;> nb_lit
+    · exact NB.nil
   · split
     · rename_i unsigned aliases hpo
       intro stk
@@ -433,7 +471,7 @@ structure DataOk (d : ParsedData) : Prop where
 
 theorem fileFacts_ok {cfg : Cfg} (H : CfgOk cfg) (d : ParsedData) (hd : DataOk d) (f : ScFile)
     (hv : ∀ v, cfg.versionHeader = some v → Dotted v)
-    (hsplit : ∃ parent last, rsplitOnceDot cfg.package = some (parent, last) ∧ Dotted parent ∧ Dotted last)
+    (hpkg : Dotted cfg.package)
     (h : fileFacts cfg d = .ok f) : FileOk f := by
   unfold fileFacts at h
   split at h
@@ -444,7 +482,11 @@ theorem fileFacts_ok {cfg : Cfg} (H : CfgOk cfg) (d : ParsedData) (hd : DataOk d
   obtain ⟨po, hpo, h⟩ := bind_ok h
   obtain ⟨pb, hpb, h⟩ := bind_ok h
   cases h
-  refine ⟨hv, hsplit, ?_, ?_⟩
+  refine ⟨hv, ?_, lastPackageSegment_dotted hpkg, ?_, ?_⟩
+  · intro p hp
+    simp only [Option.map_eq_some_iff] at hp
+    obtain ⟨⟨parent, last⟩, hsp, rfl⟩ := hp
+    exact dotted_of_subset hpkg (rsplitOnceDot_mem hsp).1
   · intro x hx
     simp only at hx
     subst hx
